@@ -99,6 +99,36 @@ type Duplex struct {
 	Name  string
 	ToSrv *Pipe
 	ToCli *Pipe
+	// open is closed while the client drains its responses; a stalled call
+	// (StallFromStart) has it open until Resume: the server's Send blocks
+	// (back-pressure) until then or until the call's context ends.
+	open    chan struct{}
+	resumed bool
+}
+
+// StallFromStart makes the server's Sends on this call block until Resume.
+// It must be called before the call is started.
+func (d *Duplex) StallFromStart() { d.open = make(chan struct{}) }
+
+// Resume lets the server's Sends proceed.
+func (d *Duplex) Resume() {
+	if d.open != nil && !d.resumed {
+		d.resumed = true
+		close(d.open)
+	}
+}
+
+// gate blocks a server-side Send while the call is stalled.
+func (d *Duplex) gate() error {
+	if d.open == nil {
+		return nil
+	}
+	select {
+	case <-d.open:
+		return nil
+	case <-d.ctx.Done():
+		return context.Canceled
+	}
 }
 
 // NewDuplex creates the pipes of a call made by the peer with identity id.
@@ -118,7 +148,12 @@ func (d *Duplex) Cancel() { d.cancel() }
 // SrvSession is the server's view of a Session call.
 type SrvSession struct{ *Duplex }
 
-func (s SrvSession) Send(m *signaling.SessionResponse) error { return s.ToCli.Push(m.CloneVT()) }
+func (s SrvSession) Send(m *signaling.SessionResponse) error {
+	if err := s.gate(); err != nil {
+		return err
+	}
+	return s.ToCli.Push(m.CloneVT())
+}
 func (s SrvSession) SendAndClose(m *signaling.SessionResponse) error {
 	if m != nil {
 		if err := s.Send(m); err != nil {
@@ -142,7 +177,12 @@ var _ signaling.SRPCSignaling_SessionStream = SrvSession{}
 // SrvListen is the server's view of a Listen call.
 type SrvListen struct{ *Duplex }
 
-func (s SrvListen) Send(m *signaling.ListenResponse) error { return s.ToCli.Push(m.CloneVT()) }
+func (s SrvListen) Send(m *signaling.ListenResponse) error {
+	if err := s.gate(); err != nil {
+		return err
+	}
+	return s.ToCli.Push(m.CloneVT())
+}
 func (s SrvListen) SendAndClose(m *signaling.ListenResponse) error {
 	if m != nil {
 		return s.Send(m)
